@@ -4,10 +4,27 @@
    [c_fs0], the calls [c_ops] (thread i = call i: Render or LoadTemplates) and
    the schedule [c_evs]: [EStep i] = the harness released thread i from the
    yield point it was parked at (or started it) and waited until it parked
-   again or returned; [EFs t] = the harness edited the files, [t] is the whole
-   tree below template/page afterwards.  Observed: per event the yield point
-   the thread reached ([g_steps]), per thread the class of what the call
-   returned ([g_res]).
+   again or returned; [ECompile i] = the harness released thread i, parked at
+   "load:locked" or inside a FuncProvider call of its load, and let it run to
+   the next FuncProvider call (the next file of the compile) or to the end of
+   the load; [EFs t] = the harness edited the files, [t] is the whole tree
+   below template/page afterwards.  Observed: per event the yield point the
+   thread reached ([g_steps]), per thread the class of what the call returned
+   ([g_res]).
+
+   A released thread may also be observed BLOCKED (it neither parks nor
+   returns within the probe bound: it waits for the lock a parked thread
+   holds).  It is then in flight: it goes on by itself as soon as the lock is
+   released, and the schedule must give its next [EStep] right after the
+   releasing step.  The machine refuses the step of a blocked thread (no-op),
+   which is what the observation is compared with.  Schedules whose outcome
+   would depend on who wins the lock (two or more threads in flight one of
+   which starts a load), that do anything else while released threads are
+   running, that edit files while a load is between two of its files, or that
+   continue a compile whose length depends on the unknown Readdir order, are
+   declined (unmodelled); the generator emits none - except file edits inside
+   a load (stream 6), which are judged by the oracle alone: violation or
+   unmodelled.
 
    agree  : the machine of Models/Loader.v, run on the same schedule, parks
             every thread at the same points and gives every call the same
@@ -22,7 +39,7 @@
 From PV Require Import Base.Bytes Run.Verdict.
 From PV Require Export Models.Loader.
 
-Inductive gpoint := GCheck | GLocked | GAfterLoad | GDone | GStuck | GNoop | GEdit | GOther.
+Inductive gpoint := GCheck | GLocked | GAfterLoad | GDone | GStuck | GNoop | GEdit | GOther | GCompile | GBlocked.
 Inductive gres := GR (r : result) | GStuckR | GUnfinished | GOtherR.
 
 Record case10 := {
@@ -64,7 +81,7 @@ Definition gres_eqb (coarse : bool) (a b : gres) : bool :=
 Definition gpoint_eqb (a b : gpoint) : bool :=
   match a, b with
   | GCheck, GCheck | GLocked, GLocked | GAfterLoad, GAfterLoad | GDone, GDone
-  | GStuck, GStuck | GNoop, GNoop | GEdit, GEdit | GOther, GOther => true
+  | GStuck, GStuck | GNoop, GNoop | GEdit, GEdit | GOther, GOther | GCompile, GCompile | GBlocked, GBlocked => true
   | _, _ => false
   end.
 
@@ -86,49 +103,89 @@ Definition point_of (p : pc) : gpoint :=
   | PDone _ => GDone
   end.
 
-(* the harness abandons a case at the first blocked step: later steps are no-ops *)
-Fixpoint mtrace (debug : bool) (ops : nat -> op) (s : st) (abandoned : bool) (evs : list ev)
-  : list gpoint * st * bool :=
+Fixpoint memn (i : nat) (l : list nat) : bool :=
+  match l with [] => false | x :: t => Nat.eqb x i || memn i t end.
+
+Fixpoint remn (i : nat) (l : list nat) : list nat :=
+  match l with [] => [] | x :: t => if Nat.eqb x i then remn i t else x :: remn i t end.
+
+Definition is_nil {A} (l : list A) : bool := match l with [] => true | _ => false end.
+
+(* [fl]: the threads in flight (released, blocked on the lock); [multi]: two or more were in flight at
+   once since the set was last empty; [ab]: 0 = the model answers for the schedule so far, 1 = it has
+   left what the model answers for, 2 = it has, and the first reason was a file edit inside a load.
+   After that the trace is of no interest (the verdict is "unmodelled" unless the oracle objects). *)
+Definition dec (ab : nat) (x : bool) (code : nat) : nat :=
+  match ab with 0 => if x then code else 0 | _ => ab end.
+
+Definition is0 (n : nat) : bool := match n with 0 => true | _ => false end.
+
+Fixpoint mtrace (debug : bool) (ops : nat -> op) (s : st) (ab : nat) (fl : list nat) (multi : bool)
+         (evs : list ev) : list gpoint * st * nat :=
   match evs with
-  | [] => ([], s, abandoned)
+  | [] => ([], s, dec ab (negb (is_nil fl)) 1)
   | EFs t :: r =>
-    let '(tr, s', ab) := mtrace debug ops (set_fs s t) abandoned r in (GEdit :: tr, s', ab)
+    let racy := negb (is_nil fl) && lock_free s in
+    let mid := negb (lock_free s) && (0 <? prog s) in
+    let '(tr, s', ab') := mtrace debug ops (set_fs s t) (dec (dec ab racy 1) mid 2) fl multi r in
+    (GEdit :: tr, s', ab')
   | EStep i :: r =>
-    if abandoned
-    then let '(tr, s', ab) := mtrace debug ops s true r in (GNoop :: tr, s', ab)
+    if negb (is0 ab) || (negb (is_nil fl) && lock_free s && negb (memn i fl))
+    then let '(tr, s', ab') := mtrace debug ops s (dec ab true 1) fl multi r in (GNoop :: tr, s', ab')
     else match step debug ops s i with
          | Some s1 =>
-           let '(tr, s', ab) := mtrace debug ops s1 false r in (point_of (pcs s1 i) :: tr, s', ab)
+           let fl1 := remn i fl in
+           let nondet := memn i fl && multi && negb (lock_free s1) in
+           let '(tr, s', ab') := mtrace debug ops s1 (dec 0 nondet 1) fl1 (multi && negb (is_nil fl1)) r in
+           (point_of (pcs s1 i) :: tr, s', ab')
          | None =>
            match pcs s i with
-           | PDone _ => let '(tr, s', ab) := mtrace debug ops s false r in (GNoop :: tr, s', ab)
-           | _ => let '(tr, s', ab) := mtrace debug ops s true r in (GStuck :: tr, s', ab)
+           | PDone _ => let '(tr, s', ab') := mtrace debug ops s 0 fl multi r in (GNoop :: tr, s', ab')
+           | _ =>
+             let fl1 := if memn i fl then fl else i :: fl in
+             let '(tr, s', ab') := mtrace debug ops s 0 fl1 (multi || negb (is_nil (remn i fl))) r in
+             (GBlocked :: tr, s', ab')
            end
+         end
+  | ECompile i :: r =>
+    if negb (is0 ab) || (negb (is_nil fl) && lock_free s && negb (memn i fl))
+    then let '(tr, s', ab') := mtrace debug ops s (dec ab true 1) fl multi r in (GNoop :: tr, s', ab')
+    else match pcs s i with
+         | PLocked =>
+           let s1 := compile_ev debug ops s i in
+           let orderdep := (0 <? prog s) && negb (good_under debug (filter_of debug (ops i)) (fs s)) in
+           let '(tr, s', ab') := mtrace debug ops s1 (dec 0 orderdep 1) fl multi r in
+           ((match pcs s1 i with PLocked => GCompile | p => point_of p end) :: tr, s', ab')
+         | _ => let '(tr, s', ab') := mtrace debug ops s 0 fl multi r in (GNoop :: tr, s', ab')
          end
   end.
 
-Definition model_run (c : case10) : list gpoint * st * bool :=
-  mtrace (c_debug c) (ops_fn (c_ops c)) (init (c_fs0 c)) false (c_evs c).
+Definition model_run (c : case10) : list gpoint * st * nat :=
+  mtrace (c_debug c) (ops_fn (c_ops c)) (init (c_fs0 c)) 0 [] false (c_evs c).
 
-(* Some results when every thread the schedule started has finished and nothing blocked *)
+(* Some results when every thread the schedule started has finished and the model answers for the schedule *)
 Definition model_results (c : case10) : option (list gres) :=
   let '(_, s, ab) := model_run c in
-  if ab then None
+  if negb (is0 ab) then None
   else
     let rs := map (fun i => pcs s i) (seq 0 (length (c_ops c))) in
     if forallb (fun p => match p with PDone _ | PStart => true | _ => false end) rs
     then Some (map (fun p => match p with PDone r => GR r | _ => GUnfinished end) rs)
     else None.
 
+(* a file edit arrived while a load was between two of its files, and nothing else is amiss before it *)
+Definition mid_load_edit (c : case10) : bool :=
+  let '(_, _, ab) := model_run c in match ab with 2 => true | _ => false end.
+
 (* ------------------------------------------------------------ windows of tree versions *)
 
 Definition is_step (i : nat) (e : ev) : bool :=
-  match e with EStep j => Nat.eqb j i | EFs _ => false end.
+  match e with EStep j | ECompile j => Nat.eqb j i | EFs _ => false end.
 
 Definition has_step (i : nat) (evs : list ev) : bool := existsb (is_step i) evs.
 
 Definition versions (c : case10) : list fstree :=
-  c_fs0 c :: flat_map (fun e => match e with EFs t => [t] | EStep _ => [] end) (c_evs c).
+  c_fs0 c :: flat_map (fun e => match e with EFs t => [t] | _ => [] end) (c_evs c).
 
 (* versions current between the first and the last step of thread i *)
 Fixpoint window (i : nat) (evs : list ev) (cur : fstree) (started : bool) : list fstree :=
@@ -136,7 +193,7 @@ Fixpoint window (i : nat) (evs : list ev) (cur : fstree) (started : bool) : list
   | [] => []
   | EFs t :: r =>
     if started && has_step i r then t :: window i r t true else window i r t started
-  | EStep j :: r =>
+  | (EStep j | ECompile j) :: r =>
     if Nat.eqb j i && negb started then cur :: window i r cur true else window i r cur started
   end.
 
@@ -145,7 +202,7 @@ Fixpoint hist (i : nat) (evs : list ev) : list fstree :=
   match evs with
   | [] => []
   | EFs t :: r => if has_step i r then t :: hist i r else []
-  | EStep _ :: r => hist i r
+  | _ :: r => hist i r
   end.
 
 Fixpoint first_step (i : nat) (evs : list ev) (k : nat) : option nat :=
@@ -204,7 +261,10 @@ Definition evidence (c : case10) (i : nat) : bool :=
             (combine (seq 0 (length (g_res c))) (g_res c))
   end.
 
-Definition thread_ok (c : case10) (i : nat) (o : op) (g : gres) : bool :=
+(* [relax]: some load of the case read its files from more than one version of the tree (a file edit arrived
+   inside it; only contents change then, the names are those of the last version of the window): it
+   succeeds if every file it selects compiles in SOME version of its window *)
+Definition thread_ok (relax : bool) (c : case10) (i : nat) (o : op) (g : gres) : bool :=
   let debug := c_debug c in
   let evs := c_evs c in
   if negb (has_step i evs) then (match g with GUnfinished => true | _ => false end)
@@ -224,16 +284,22 @@ Definition thread_ok (c : case10) (i : nat) (o : op) (g : gres) : bool :=
         else existsb (fun v => is_none (content debug v n) || bad_under debug [] v) H
       | _, RLoadErr => existsb (fun v => bad_class debug flt v false) W
       | _, RLoadPanic => existsb (fun v => bad_class debug flt v true) W
-      | OLoad f, RLoaded => existsb (fun v => negb (bad_under debug f v)) W
+      | OLoad f, RLoaded =>
+        if relax
+        then forallb (fun nk => negb (prefixb f (fst nk))
+                                || existsb (fun v => match content debug v (fst nk) with
+                                                     | Some (Some _) => true | _ => false end) W)
+                     (tnames (last W None))
+        else existsb (fun v => negb (bad_under debug f v)) W
       | OLoad f, RAgain => is_empty f && evidence c i
       | ORender _, RAgain | ORender _, RLoaded | OLoad _, ROk _ | OLoad _, RNotFound => false
       end
     end.
 
-Fixpoint threads_ok (c : case10) (i : nat) (os : list op) (gs : list gres) : bool :=
+Fixpoint threads_ok (relax : bool) (c : case10) (i : nat) (os : list op) (gs : list gres) : bool :=
   match os, gs with
   | [], [] => true
-  | o :: os', g :: gs' => thread_ok c i o g && threads_ok c (S i) os' gs'
+  | o :: os', g :: gs' => thread_ok relax c i o g && threads_ok relax c (S i) os' gs'
   | _, _ => false
   end.
 
@@ -255,8 +321,29 @@ Definition prod_consistent (c : case10) : bool :=
                         end) (combine (c_ops c) (g_res c))) vs.
 
 Definition oracle10 (c : case10) : bool :=
-  threads_ok c 0 (c_ops c) (g_res c)
+  threads_ok false c 0 (c_ops c) (g_res c)
   && (c_debug c || prod_consistent c)
+  && forallb (fun p => negb (gpoint_eqb p GStuck)) (g_steps c).
+
+(* production mode, loaded once: all renders of one name that produced output produced the same *)
+Definition prod_same_name (c : case10) : bool :=
+  let rs := combine (c_ops c) (g_res c) in
+  forallb (fun a : op * gres =>
+             match a with
+             | (ORender n, GR (ROk out)) =>
+               forallb (fun b : op * gres =>
+                          match b with
+                          | (ORender n', GR (ROk out')) => negb (beqb n n') || beqb out out'
+                          | _ => true
+                          end) rs
+             | _ => true
+             end) rs.
+
+(* the oracle for a case with a file edit inside a load: the template set may mix versions of the tree
+   file by file, so "one version answers all renders" is weakened to "one answer per name" *)
+Definition oracle10_mid (c : case10) : bool :=
+  threads_ok true c 0 (c_ops c) (g_res c)
+  && (c_debug c || prod_same_name c)
   && forallb (fun p => negb (gpoint_eqb p GStuck)) (g_steps c).
 
 (* domain of the property theorems *)
@@ -283,10 +370,12 @@ Definition agree10 (c : case10) : bool :=
 (* A schedule the machine cannot follow (a step the lock forbids, or calls left unfinished at the end)
    is not a test of anything: the generator never emits one, a shrinking candidate may be one. *)
 Definition judge (c : case10) : nat :=
-  match model_results c with
-  | None => v_unmodelled
-  | Some _ => verdict (in_dom10 c) (oracle10 c) (agree10 c)
-  end.
+  if mid_load_edit c
+  then (if in_dom10 c && negb (oracle10_mid c) then v_violation else v_unmodelled)
+  else match model_results c with
+       | None => v_unmodelled
+       | Some _ => verdict (in_dom10 c) (oracle10 c) (agree10 c)
+       end.
 
 (* diagnostic *)
 Definition model_says (c : case10) : list gpoint * option (list gres) :=
